@@ -147,10 +147,10 @@ func (p *Program) computeFacts(fn *ssa.Function) *funcFacts {
 				}
 				for _, f := range p.edgeFacts(pr, b) {
 					cand[f.key] = f
-					for _, g := range p.phiImplied(ff, top, f, 0) {
+					for _, g := range p.phiImplied(ff, top, f, 0, cand) {
 						cand[g.key] = g
 					}
-					for _, g := range p.phiNilImplied(ff, top, f) {
+					for _, g := range p.phiNilImplied(ff, top, f, cand) {
 						cand[g.key] = g
 					}
 				}
@@ -233,10 +233,10 @@ func (p *Program) FactsOnEdgeX(from, to *ssa.BasicBlock) []Fact {
 	}
 	for _, f := range p.edgeFacts(from, to) {
 		fs[f.key] = f
-		for _, g := range p.phiImplied(ff, map[*ssa.BasicBlock]bool{}, f, 0) {
+		for _, g := range p.phiImplied(ff, map[*ssa.BasicBlock]bool{}, f, 0, fs) {
 			fs[g.key] = g
 		}
-		for _, g := range p.phiNilImplied(ff, map[*ssa.BasicBlock]bool{}, f) {
+		for _, g := range p.phiNilImplied(ff, map[*ssa.BasicBlock]bool{}, f, fs) {
 			fs[g.key] = g
 		}
 	}
@@ -892,7 +892,7 @@ func zeroConst(t types.Type) ssa.Value {
 // value can equal f.Pol; the implied facts are those common to all such edges: the facts at the end
 // of the predecessor, the facts of the edge itself and (for non-constant edge values) the fact that
 // the edge value equals f.Pol.
-func (p *Program) phiImplied(ff *funcFacts, top map[*ssa.BasicBlock]bool, f Fact, depth int) []Fact {
+func (p *Program) phiImplied(ff *funcFacts, top map[*ssa.BasicBlock]bool, f Fact, depth int, known factSet) []Fact {
 	ph, ok := f.Cond.(*ssa.Phi)
 	if !ok || depth > 3 {
 		return nil
@@ -910,6 +910,9 @@ func (p *Program) phiImplied(ff *funcFacts, top map[*ssa.BasicBlock]bool, f Fact
 		pr := blk.Preds[i]
 		if cb, isConst := constBool(e); isConst && cb != f.Pol {
 			continue // this edge cannot have produced the value
+		}
+		if phiEdgeExcluded(blk, i, known) {
+			continue // what is known about a sibling phi rules this edge out
 		}
 		if top[pr] {
 			continue // not yet computed: no constraint (optimistic, refined by the fixpoint)
@@ -929,7 +932,7 @@ func (p *Program) phiImplied(ff *funcFacts, top map[*ssa.BasicBlock]bool, f Fact
 				continue
 			}
 			cand[g.key] = g
-			for _, h := range p.phiImplied(ff, top, g, depth+1) {
+			for _, h := range p.phiImplied(ff, top, g, depth+1, nil) {
 				cand[h.key] = h
 			}
 		}
@@ -1005,7 +1008,7 @@ func definitelyNonNil(v ssa.Value) bool {
 // helper: phi(Errorf(...), Errorf(...), nil)). If the phi is nil, control came through an edge
 // whose value can be nil; if it is non-nil, through an edge whose value is not the nil constant.
 // The implied facts are those common to the remaining edges.
-func (p *Program) phiNilImplied(ff *funcFacts, top map[*ssa.BasicBlock]bool, f Fact) []Fact {
+func (p *Program) phiNilImplied(ff *funcFacts, top map[*ssa.BasicBlock]bool, f Fact, known factSet) []Fact {
 	x, trueMeansNonNil, ok := errNilTest(f.Cond)
 	if !ok {
 		return nil
@@ -1026,6 +1029,9 @@ func (p *Program) phiNilImplied(ff *funcFacts, top map[*ssa.BasicBlock]bool, f F
 			continue
 		}
 		if !isNil && isNilConst(stripConv(e)) {
+			continue
+		}
+		if phiEdgeExcluded(blk, i, known) {
 			continue
 		}
 		pr := blk.Preds[i]
@@ -1054,4 +1060,81 @@ func (p *Program) phiNilImplied(ff *funcFacts, top map[*ssa.BasicBlock]bool, f F
 		return nil
 	}
 	return common.list()
+}
+
+// ---------------------------------------------------------------------------------------------
+// Correlated branches
+//
+// edgeContradicts reports whether taking the CFG edge from->to is incompatible with the facts
+// known at a later program point (e.g. the facts at a return that a backward path walk started
+// from): the edge tests the very same SSA value with the opposite outcome, and that value cannot be
+// recomputed between the edge and the later point (its defining block is not reachable from `to`).
+// A path through such an edge cannot end at that point, so per-path rules may skip it:
+// `if !done && x { A }; if !done { return }` — the edge done==true cannot lead to the return.
+func (p *Program) edgeContradicts(from, to *ssa.BasicBlock, facts []Fact) bool {
+	for _, ef := range p.edgeFacts(from, to) {
+		for _, f := range facts {
+			if f.Imported || f.Cond != ef.Cond || f.Pol == ef.Pol {
+				continue
+			}
+			if in, ok := ef.Cond.(ssa.Instruction); ok && in.Block() != nil {
+				if blockReachableFrom(to, in.Block()) {
+					continue // may be recomputed (loop): no conclusion
+				}
+			}
+			return true
+		}
+	}
+	return false
+}
+
+// blockReachableFrom: target is reachable from start (start itself counts).
+func blockReachableFrom(start, target *ssa.BasicBlock) bool {
+	seen := map[*ssa.BasicBlock]bool{}
+	work := []*ssa.BasicBlock{start}
+	for len(work) > 0 {
+		b := work[len(work)-1]
+		work = work[:len(work)-1]
+		if seen[b] {
+			continue
+		}
+		seen[b] = true
+		if b == target {
+			return true
+		}
+		work = append(work, b.Succs...)
+	}
+	return false
+}
+
+// phiEdgeExcluded: control cannot have entered blk through its i-th predecessor given what is known
+// (facts holding at the point of interest) about the phis of blk: a boolean phi known true/false
+// whose i-th edge is the opposite constant, a phi known nil whose i-th edge is a fresh error, a phi
+// known non-nil whose i-th edge is the nil constant. Used to judge several results of one merge
+// point together (`found, err := helper(); if err != nil {…}; if !found {…}`).
+func phiEdgeExcluded(blk *ssa.BasicBlock, i int, known factSet) bool {
+	for _, g := range known {
+		if g.Imported {
+			continue
+		}
+		if ph, ok := g.Cond.(*ssa.Phi); ok && ph.Block() == blk && i < len(ph.Edges) {
+			if cb, isConst := constBool(ph.Edges[i]); isConst && cb != g.Pol {
+				return true
+			}
+			continue
+		}
+		if x, trueMeansNonNil, ok := errNilTest(g.Cond); ok {
+			if ph, isPhi := stripConv(x).(*ssa.Phi); isPhi && ph.Block() == blk && i < len(ph.Edges) {
+				isNil := g.Pol != trueMeansNonNil
+				e := ph.Edges[i]
+				if isNil && definitelyNonNil(e) {
+					return true
+				}
+				if !isNil && isNilConst(stripConv(e)) {
+					return true
+				}
+			}
+		}
+	}
+	return false
 }
